@@ -199,8 +199,9 @@ class H:
                 full = self.op == "window_with_time_or_count" and m["n"] >= 2
                 if not full and m["close"] - m["open"] < 1.0 - 1e-9:
                     P.append((f"{self.op}|window-closed-early", f"window {name} opened at clock {m['open']} closed at {m['close']} with {m['n']} elements (timespan 1.0" + (", count 2)" if self.op.endswith("count") else ")")))
-        if self.op.split(":")[0] in ("merge", "merge_all", "flat_map", "switch_latest") and all(q[-1] == "C" for q in self.seqs):
-            # merge family: once the outer and every inner completed, the output must have completed (C11's rule, here under threads)
+        if not self.timed and all(q[-1] == "C" for q in self.seqs):
+            # every combinator of the list completes at the latest when all of its sources have completed (merge family: C11's
+            # rule; zip/combine_latest/with_latest_from/amb: C13's rules) — here under threads: a completion must not get lost
             if "".join(st["logs"]["out"])[-1:] != "C":
                 P.append((f"{self.op}|never-completed", f"every source completed but downstream received {''.join(st['logs']['out'])!r} and no completion"))
         for name, log in st["logs"].items():
